@@ -31,3 +31,4 @@ run H9_tokenizer_push_condition_reordered C01 C02
 run H10_enable_tags_union_other_way C06 C07
 run H11_removeparam_renames_reorder C14
 run H12_matchers_reordered C02
+run H13_cosmetic_collect_reordered C16
